@@ -535,8 +535,17 @@ func ProjectBlock(d *Decl, src string, chainID uint64, b *simnode.Block, look Re
 				rows = append(rows, r)
 			}
 		case ModeTrace:
-			for i := range tx.Traces {
-				c := &itemCtx{src: src, chainID: chainID, ig: d.Name, b: b, tx: tx, ta: &tx.Traces[i], taIdx: i}
+			tas := tx.Traces
+			if tx.Idx == 0 && len(b.Rewards) > 0 {
+				// reward traces name no transaction (null hash and position): they are counted with transaction 0,
+				// after its own traces, with no from/to/call type (observed behaviour, DESIGN II.5)
+				tas = append(append([]simnode.Trace(nil), tas...), b.Rewards...)
+				for i := len(tx.Traces); i < len(tas); i++ {
+					tas[i].From = nil
+				}
+			}
+			for i := range tas {
+				c := &itemCtx{src: src, chainID: chainID, ig: d.Name, b: b, tx: tx, ta: &tas[i], taIdx: i}
 				if r, ok := d.blockRow(c, look, nil); ok {
 					rows = append(rows, r)
 				}
